@@ -28,7 +28,7 @@ RULE = (
 )
 BOUNDS = {
     "quick": "m<=4 all 33 permutations, n in {1,m-1,m,m+1}, 3 letter kinds, 2 modes; singular cells m,n<=4; ties m<=3; generic m,n<=5",
-    "thorough": "m<=6 all 873 permutations, n in {1,m-1,m,m+1,m+2}, 4 letter kinds, 2 modes; singular cells m,n<=5; ties m<=3; generic m,n<=6 x 4 fill rows",
+    "thorough": "m<=7 all 5913 permutations, n in {1,m-1,m,m+1,m+2}, 4 letter kinds, 2 modes; singular cells m,n<=5; ties m<=3; generic m,n<=6 x 4 fill rows",
 }
 WALL_BUDGET = {"quick": 240, "thorough": 1800}
 ASSUMPTIONS = [
@@ -127,7 +127,7 @@ def model_run(sigma, m, N):
 # ------------------------------------------------------------------ case space
 def cases(tier, seed):
     out = []
-    M = 4 if tier == "quick" else 6
+    M = 4 if tier == "quick" else 7
     kinds = ["real", "q8", "mixed"] + (["fill"] if tier == "thorough" else [])
     for m in range(1, M + 1):
         ns = sorted({x for x in (1, m - 1, m, m + 1) + ((m + 2,) if tier == "thorough" else ()) if x >= 1})
@@ -221,14 +221,23 @@ def structure_fails(A, res, mode, tags, exact_expected=None):
             fails.append(fail("A=LU", f"||A-LU||_F={err:.3e} budget={bud:.1e}", **tags))
         # L must be a row permutation of a unit lower-trapezoidal matrix
         Lc = None
-        for perm in itertools.permutations(range(m)) if m <= 6 else []:
-            cand = L[list(perm)]
-            if all(
-                (cand[i, i] == np.array([1.0, 0, 0, 0])).all() and not cand[i, i + 1 :].any()
-                for i in range(N)
-            ):
-                Lc = cand
-                break
+        one = np.array([1.0, 0, 0, 0])
+        cands = [[r for r in range(m) if (L[r, i] == one).all() and not L[r, i + 1 :].any()] for i in range(N)]
+
+        def dfs(i, used):
+            if i == N:
+                return []
+            for r in cands[i]:
+                if r not in used:
+                    rest = dfs(i + 1, used | {r})
+                    if rest is not None:
+                        return [r] + rest
+            return None
+
+        top = dfs(0, frozenset())
+        if top is not None:
+            order = top + [r for r in range(m) if r not in top]
+            Lc = L[order]
         if Lc is None:
             fails.append(fail("L_row_permuted_unit_lower", "no row permutation of L is unit lower-trapezoidal", **tags))
     if Lc is not None:
